@@ -64,9 +64,7 @@ K255 = b"k" * 255
 # ---- KNOWN_ON_UNCHANGED_TREE ------------------------------------------------------------------------------------
 # Violation keys (without the "C02:" prefix) that the unchanged library produces; written up with a tested fix in
 # /verif/tools/findings/C02-ext.json.  They are counted ("known.<key>") instead of reported.  REMOVE AFTER THE REPAIR.
-KNOWN_ON_UNCHANGED_TREE = {
-    "rejected:oversize-key:next-session:accepted-key-still-queued-is-unlisted",
-}
+KNOWN_ON_UNCHANGED_TREE = set()      # (the one entry it had was repaired in the library: 60bd02b)
 
 
 def known_or_violation(ctx, key, **detail):
